@@ -7,7 +7,7 @@ PANE_SHAPES = {
     "min_len": "int", "max_len": "int", ".name": "str", ".in_names": "seq", ".out_name": "str",
     "field": "rec:Field", "f": "rec:Field",
 }
-STRUCT_SHAPES = dict(PANE_SHAPES, **{"val": "map", "self.cls.from_dict_unchecked": "ghostcall:struct_hook_fast",
+STRUCT_SHAPES = dict(PANE_SHAPES, **{"val": "map", "field.default_factory": "total", "self.cls.from_dict_unchecked": "ghostcall:struct_hook_fast",
                                      "self.cls.make_unchecked": "ghostcall:struct_hook_diag"})
 TUPLE_SHAPES = dict(PANE_SHAPES, **{"val": "seq", "self.cls.make_unchecked": "ghostcall:tuple_hook"})
 
@@ -89,20 +89,52 @@ def keys_ok_upto(self, val, n):
                 fm_index(self, key_at(val, j)) != fm_index(self, key_at(val, j2))))))
 
 
+def default_value(f):
+    # the field's default, or a FRESH PRODUCT of its default factory - never the factory itself (C14)
+    return ite(f.default is not MISSING, f.default, call(f.default_factory))
+
+
+def bound_values_ok(self, val, values, n):
+    # every one of the first n keys that names a field has put its converted value under the field's Python name
+    return forall(range(n), lambda j: implies(
+        mhas(self.field_map, key_at(val, j)),
+        mget(values, sat(self.fields, fm_index(self, key_at(val, j))).name)
+        == out(sat(self.field_converters, fm_index(self, key_at(val, j))), mget(val, key_at(val, j)))))
+
+
 SPEC("pane.classes", "PaneConverter.try_convert_struct",
      shapes=STRUCT_SHAPES,
      requires=[lambda self, val: wf_Pane(self), lambda self, val: is_data_map(val)],
      returns_iff=(lambda self, val: ACC_PaneStruct(self, val), ["C15", "C01", "C03", "C14"]),
+     note="default factories are assumed not to raise",
+     ensures=[
+         # the instance is built from: converted values of the bound fields, defaults (fresh factory products) for the
+         # others, and the set-field record is exactly the bound fields (C14)
+         (lambda self, val, result: exists_val(lambda D: exists_val(lambda S:
+             result == call(self.cls.from_dict_unchecked, D, set_fields=S)
+             and bound_values_ok(self, val, as_map(D), mlen(val))
+             and forall(range(slen(self.fields)), lambda i: implies(
+                 truthy(sat(self.fields, i).init) and not bound_by(self, val, i, mlen(val)),
+                 mhas(as_map(D), sat(self.fields, i).name)
+                 and mget(as_map(D), sat(self.fields, i).name) == default_value(sat(self.fields, i))))
+             and forall(range(slen(self.fields)), lambda i: shas(as_set(S), sat(self.fields, i).name) == bound_by(self, val, i, mlen(val))))),
+          ["C14", "C01"], "val")],
      raises=(lambda self, val, exc: exc_is(exc, ParseInterrupt), ["C04", "C14"]),
      invariants={
          0: lambda it, values, self, val:
          keys_ok_upto(self, val, it)
-         and forall(range(slen(self.fields)), lambda i: mhas(values, sat(self.fields, i).name) == bound_by(self, val, i, it)),
-         1: lambda it, values, self, val:
+         and forall(range(slen(self.fields)), lambda i: mhas(values, sat(self.fields, i).name) == bound_by(self, val, i, it))
+         and bound_values_ok(self, val, values, it),
+         1: lambda it, values, set_fields, self, val:
          forall(range(it), lambda i: implies(truthy(sat(self.fields, i).init) and not has_default_spec(sat(self.fields, i)),
                                              bound_by(self, val, i, mlen(val))))
          and keys_ok_upto(self, val, mlen(val))
-         and forall(range(it, slen(self.fields)), lambda i: mhas(values, sat(self.fields, i).name) == bound_by(self, val, i, mlen(val))),
+         and forall(range(it, slen(self.fields)), lambda i: mhas(values, sat(self.fields, i).name) == bound_by(self, val, i, mlen(val)))
+         and bound_values_ok(self, val, values, mlen(val))
+         and forall(range(it), lambda i: implies(
+             truthy(sat(self.fields, i).init) and not bound_by(self, val, i, mlen(val)),
+             mhas(values, sat(self.fields, i).name) and mget(values, sat(self.fields, i).name) == default_value(sat(self.fields, i))))
+         and forall(range(slen(self.fields)), lambda i: shas(set_fields, sat(self.fields, i).name) == bound_by(self, val, i, mlen(val))),
      })
 
 
